@@ -144,6 +144,73 @@ theorem dot_lin_right (a b : α) (u v w : Vec α n) :
 def LanczosOrthonormal (J : Nat) : Prop :=
   ∀ a b, a ≤ J → b ≤ J → dot (trk N P s σ t0 a).1.z1 (trk N P s σ t0 b).1.z1 = if a = b then 1 else 0
 
+/-- Generic form of `frame` for a symmetric bilinear form `B` (e.g. `B u v = ⟨u, M⁻¹ v⟩` with a preconditioner): with
+`B`-orthonormal Lanczos vectors, `m_{j+1}` is a `B`-unit vector `B`-orthogonal to every `p_i`, `i ≤ j`, and to all later Lanczos
+vectors. -/
+theorem frameB (B : Vec α n → Vec α n → α)
+    (hBl : ∀ (a b : α) (u v w : Vec α n), B (fun i => a * u i + b * v i) w = a * B u w + b * B v w)
+    (hBc : ∀ u v : Vec α n, B u v = B v u) (J : Nat)
+    (horth : ∀ a b, a ≤ J → b ≤ J → B (trk N P s σ t0 a).1.z1 (trk N P s σ t0 b).1.z1 = if a = b then 1 else 0)
+    (hrot : ∀ j, j ≤ J → (trk N P s σ t0 j).2.cos1 * (trk N P s σ t0 j).2.cos1 +
+      (trk N P s σ t0 j).2.sin1 * (trk N P s σ t0 j).2.sin1 = 1)
+    (hm0 : resDir N P s σ t0 0 = (trk N P s σ t0 0).1.z1) (hp0 : imgDir N P s σ t0 0 = fun _ => 0) (j : Nat) (hj : j ≤ J) :
+    B (resDir N P s σ t0 j) (resDir N P s σ t0 j) = 1 ∧
+    (∀ l, j < l → l ≤ J → B (resDir N P s σ t0 j) (trk N P s σ t0 l).1.z1 = 0) ∧
+    (∀ i, i ≤ j → B (imgDir N P s σ t0 i) (resDir N P s σ t0 j) = 0) ∧
+    (∀ i, i ≤ j → ∀ l, i < l → l ≤ J → B (imgDir N P s σ t0 i) (trk N P s σ t0 l).1.z1 = 0) := by
+  have hBr : ∀ (a b : α) (u v w : Vec α n), B w (fun i => a * u i + b * v i) = a * B w u + b * B w v := by
+    intro a b u v w; rw [hBc, hBl, hBc u, hBc v]
+  have hB0 : ∀ v : Vec α n, B (fun _ => 0) v = 0 := by
+    intro v
+    have h := hBl 0 0 v v v
+    simpa using h
+  induction j with
+  | zero =>
+    refine ⟨?_, ?_, ?_, ?_⟩
+    · rw [hm0, horth 0 0 (by omega) (by omega), if_pos rfl]
+    · intro l hl hlJ
+      rw [hm0, horth 0 l (by omega) hlJ, if_neg (by omega)]
+    · intro i hi
+      have : i = 0 := by omega
+      subst this
+      rw [hp0, hB0]
+    · intro i hi l _ _
+      have : i = 0 := by omega
+      subst this
+      rw [hp0, hB0]
+  | succ j ih =>
+    obtain ⟨f1, f2, f3, f4⟩ := ih (by omega)
+    have hR : resDir N P s σ t0 (j + 1) = fun i => -(trk N P s σ t0 (j + 1)).2.sin1 * resDir N P s σ t0 j i +
+        (trk N P s σ t0 (j + 1)).2.cos1 * (trk N P s σ t0 (j + 1)).1.z1 i := funext (resDir_succ N P s σ t0 j)
+    have hP : imgDir N P s σ t0 (j + 1) = fun i => (trk N P s σ t0 (j + 1)).2.cos1 * resDir N P s σ t0 j i +
+        (trk N P s σ t0 (j + 1)).2.sin1 * (trk N P s σ t0 (j + 1)).1.z1 i := funext (imgDir_succ N P s σ t0 j)
+    have hmz : B (resDir N P s σ t0 j) (trk N P s σ t0 (j + 1)).1.z1 = 0 := f2 (j + 1) (by omega) hj
+    have hzm : B (trk N P s σ t0 (j + 1)).1.z1 (resDir N P s σ t0 j) = 0 := by rw [hBc]; exact hmz
+    have hzz : B (trk N P s σ t0 (j + 1)).1.z1 (trk N P s σ t0 (j + 1)).1.z1 = 1 := by
+      rw [horth _ _ hj hj, if_pos rfl]
+    have hr := hrot (j + 1) hj
+    refine ⟨?_, ?_, ?_, ?_⟩
+    · rw [hR, hBl, hBr, hBr, f1, hmz, hzm, hzz]
+      linear_combination hr
+    · intro l hl hlJ
+      rw [hR, hBl, f2 l (by omega) hlJ, horth _ _ hj hlJ, if_neg (by omega)]
+      ring
+    · intro i hi
+      rcases Nat.lt_or_ge i (j + 1) with h | h
+      · rw [hR, hBr, f3 i (by omega), f4 i (by omega) (j + 1) h hj]; ring
+      · have : i = j + 1 := by omega
+        subst this
+        rw [hP, hR, hBl, hBr, hBr, f1, hmz, hzm, hzz]
+        ring
+    · intro i hi l hil hlJ
+      rcases Nat.lt_or_ge i (j + 1) with h | h
+      · exact f4 i (by omega) l hil hlJ
+      · have : i = j + 1 := by omega
+        subst this
+        rw [hP, hBl, f2 l (by omega) hlJ, horth _ _ hj hlJ, if_neg (by omega)]
+        ring
+
+
 /-- With orthonormal Lanczos vectors and orthogonal rotations, `m_{j+1}` is a unit vector orthogonal to every `p_i`, `i ≤ j`,
 and to all later Lanczos vectors. -/
 theorem frame (J : Nat) (horth : LanczosOrthonormal N P s σ t0 J)
